@@ -8,6 +8,16 @@ BASELINE_OFF = ("cd /repo && cargo nextest run --workspace --no-fail-fast --test
 
 # id -> (engine, category, technique, level text, level note, design ref)
 CHECKS = {
+ "C05": ("E1/E4", "model_checking",
+         "explicit-state construction of the exact one-sweep kernel by enumerating EVERY outcome sequence of the real step() (scripted conditional) + list-model check of the call log for every dimension 1..64",
+         "(a) A recording conditional logs (index, copy of the state it was given) and returns a fresh unique value; for every dimension 1..64, 1-3 steps, f64 (incl. NaN/-0/inf states), f32, i32 and 2-4 chains through GibbsSampler::run the log must equal the list model (each coordinate once, in order, freshest state, nothing else changed). (b) For finite joints (all 255 weight tables over {0..3} on {0,1}^2, structured tables with zeros on {0,1}^3, {0,1,2}^2, thorough also {0,1}^4, {0,1,2}^3) every outcome sequence of one sweep from every positive-probability state is executed on the real chain with its exact probability, giving the exact kernel P; pi P = pi is checked to 1e-12.",
+         "User conditionals are harness types (the library has no randomness of its own in a Gibbs step).",
+         "DESIGN.md §3 C05"),
+ "C07": ("E2/E4", "model_checking",
+         "controlled scheduler (E2) enumerating all chain-level interleavings of 2-3 concurrently running samplers under a deviation bound, on the real code with real OS threads; enumerated seed/pool-size grids",
+         "(a) 2-3 OS threads each run a real chain/sampler (MH, Gibbs, HMC, NUTS in same-kind and mixed combinations); scheduling points sit at every user callback (target / conditional evaluation), one thread runs at a time, and ALL schedules with <= 1-2 (quick) / 2-3 (thorough) deviations from run-to-completion are executed; each thread's draws must equal, bit for bit, the same sampler run alone. (b) run() inside private rayon pools of sizes 1..16 equals the stack of chains run alone. (c) seeds {0,1,41,42,2^32,u64::MAX-1,u64::MAX} x {1,3} chains x six sampler configurations built twice are bit-identical, distinct seeds differ, run_progress returns run's draws.",
+         "Sequentially consistent interleavings at callback granularity (the library has no unsafe/atomics of its own); rayon's internal scheduling in (b) is free-running. Replay determinism of schedules is checked on every configuration.",
+         "DESIGN.md §3 C07"),
  "C11": ("E4", "model_checking",
          "bounded-exhaustive input enumeration (all arrays over a 4-letter alphabet for small shapes) + enumerated structured families, against an independent f64 reference and metamorphic oracles",
          "Every array over {-1,0,1,2} of the listed small shapes (quick 1.4e5, thorough 3.5e7 arrays) and every member of fixed structured families up to 16 chains x 5000 draws x 8 parameters is evaluated on the real split_rhat_mean_ess / RunStats / basic_stats and compared with sqrt(var+/W) computed in f64 on the half-chains (either variance-divisor convention, but one and the same on all inputs), plus lower bound, separation ladder, affine/permutation/other-parameter invariance and the run-summary order statistics incl. NaN robustness at every subset of positions.",
